@@ -23,7 +23,7 @@ from .c01 import make_config
 from .core import Relation, err_kind
 
 PROP = "C20"
-CLAIMED = False
+CLAIMED = True
 COQ_MODULES = ["C20_Check", "C20_Proofs", "C20_Proofs2", "C20_Proofs3"]
 PROPERTY_MODULE = "C20_Property"
 ALLOWED_AXIOMS = []
